@@ -24,6 +24,10 @@ type editor struct {
 }
 
 func (e editor) edit(from *Selection, to *Selection, s editStrategy) (err error) {
+	if _, isAction := from.Meta().(*meta.Rpc); isAction {
+		// a selection found at the path of an rpc or action holds no data to read or write
+		return fmt.Errorf("%w. '%s' is an rpc or action, it has no data to edit", fc.BadRequestError, from.Meta().Ident())
+	}
 	if err := e.enter(from, to, false, s, true, true); err != nil {
 		return err
 	}
